@@ -185,4 +185,26 @@ CHECKS["C04"] = {
     "note": "C04_no_stuck partial (coverage.partial); abstract mutex inside CvModel.",
     "technique": "Coq invariants over source-regenerated transition system + lock-step trace inclusion + scenario oracles",
 }
+CHECKS["C08"] = {
+    "text": "Theorems (Coq) over NoteModel (note.c, trees of any shape, any threads / programs / schedules / clocks): once an observer saw a "
+            "note notified every later observer does (C08_monotone); a notified note has a cause -- notify called on it or an ancestor, or a "
+            "deadline passed (C08_sound, C08_sound_obs); when nsync_note_notify returns the note is notified (C08_notify_post); a "
+            "notification changes only the note's subtree (C08_local); a notified note with no notification in progress has no children and "
+            "no waiters left (C08_descendants_partial/_linked); nsync_note_expiry = min (own deadline, parent's notification time at creation) "
+            "(C08_expiry).  Lock-step replay; per-note observation histories, tree state at every notify return and at quiescence, expiry "
+            "checked on the implementation.",
+    "design_ref": "DESIGN.md section 4, C08",
+    "note": "C08_descendants_full (creation-time descendants) kept as a Definition; literal expiry reading refuted by design (coverage.partial).",
+    "technique": "Coq invariants over source-regenerated transition system + lock-step trace inclusion + observation-history oracles",
+}
+CHECKS["C09"] = {
+    "text": "Theorems (Coq) over NoteModel: no step of any thread touches a note after its nsync_note_free returned (C09_no_uaf, with the "
+            "per-step footprint compared against the implementation in the replay); free re-parents the children under the former parent or "
+            "notifies them instead when that parent is notified (C09_adoption, C09_free_post); locks are taken in increasing note order, so "
+            "no deadlock consists of lock acquisitions alone (C09_lock_order, C09_no_stuck_partial).  Arena that unmaps freed notes, stuck "
+            "detector, descendants check at quiescence over notify/free/create families incl. the F10/F11 shapes.",
+    "design_ref": "DESIGN.md section 4, C09",
+    "note": "Progress of the condition waits (C09_no_stuck_full) is decided by the stuck detector and model exploration, not a theorem (coverage.partial).",
+    "technique": "Coq inductive invariant (lock ownership, disconnecting counts, retired notes) + lock-step trace inclusion + arena / stuck oracles",
+}
 NOT_APPLICABLE = {}
